@@ -188,6 +188,37 @@ ONTOLOGY = {
 FIELD_TO_PROPERTY = {(p["cls"], p["field"]): name for name, p in ONTOLOGY["properties"].items()}
 
 
+# ---------------------------------------------------------------- stub predicates (used by the lifetime workloads)
+
+from typing import Any, ClassVar  # noqa: E402
+
+from krrood.entity_query_language.predicate import Predicate  # noqa: E402
+
+
+@dataclass(eq=False)
+class IsListed(Predicate):
+    """A cheap user predicate over one instance."""
+
+    x: Any
+
+    def __call__(self) -> bool:
+        return getattr(self.x, "serial", 0) >= 0
+
+
+@dataclass(eq=False)
+class IsAudited(Predicate):
+    """A user predicate that declares itself expensive."""
+
+    is_expensive: ClassVar[bool] = True
+    x: Any
+
+    def __call__(self) -> bool:
+        return getattr(self.x, "serial", 0) >= 0
+
+
+PREDICATES = {"IsListed": IsListed, "IsAudited": IsAudited}
+
+
 def fresh_symbol_graph():
     """What a program does after importing its ontology: rebuild the class diagram."""
     from krrood.entity_query_language.symbol_graph import SymbolGraph
